@@ -11,3 +11,48 @@ from . import c14py
 PER = [c for c in c14py.CASES_BH if c[1] == "periodic"]
 contract("C09", "mdtraj/geometry/hbond.py", "baker_hubbard", cases=PER, replay="hbond", covers=["returned"], max_paths=3000)(c14py.baker_hubbard)
 contract("C09", "mdtraj/geometry/hbond.py", "wernet_nilsson", cases=PER, replay="hbond", covers=["returned"], max_paths=3000)(c14py.wernet_nilsson)
+
+
+# =====================================================================================================
+# Invariance lemmas over the kernel contracts of C05 / C07 (the postconditions there characterise the outputs as functions of the
+# coordinate differences / of the lattice class of the separation): proved once over fresh variables.
+import z3  # noqa: E402
+
+
+def invariance_lemmas(ctx, case=None):
+    R = lambda n: [z3.Real(f"{n}{k}") for k in range(3)]
+    xa, xb, t = R("xa"), R("xb"), R("t")
+    # non-periodic: the C05 `dist` contract gives out = x_b - x_a and d^2 = |out|^2
+    ctx.lemma("translation:(x_b+t)-(x_a+t)=x_b-x_a", 9, lambda *v: z3.And(*[(v[3 + k] + v[6 + k]) - (v[k] + v[6 + k]) == v[3 + k] - v[k] for k in range(3)]))
+    # rotation: (Q d).(Q e) = d.e for Q with orthonormal columns -- exact identity with explicit multipliers (a certificate):
+    #   (Qd).(Qe) - d.e = sum_ij d_i e_j ( col_i.col_j - delta_ij )
+    import sympy as sp
+
+    Q = sp.Matrix(3, 3, lambda i, k: sp.Symbol(f"Q{i}{k}"))
+    d = sp.Matrix(3, 1, lambda i, _: sp.Symbol(f"d{i}"))
+    e = sp.Matrix(3, 1, lambda i, _: sp.Symbol(f"e{i}"))
+    lhs = ((Q * d).T * (Q * e))[0, 0] - (d.T * e)[0, 0]
+    G = Q.T * Q - sp.eye(3)
+    cert = sum(d[i] * e[k] * G[i, k] for i in range(3) for k in range(3))
+    ctx.ensure("rotation:(Q.d).(Q.e)-d.e=sum_ij-d_i*e_j*(Q^T.Q-I)_ij(so-lengths,angles,dihedral-cosines-are-unchanged-when-Q^T.Q=I)", sp.expand(lhs - cert) == 0, kind="lemma-poly")
+    # cross products (dihedral sign): (Qa)x(Qb) = det(Q) Q (a x b) for every 3x3 matrix with Q^T Q = I; as an identity: Q^T((Qa)x(Qb)) = det(Q) (a x b)
+    a = sp.Matrix(3, 1, lambda i, _: sp.Symbol(f"a{i}"))
+    b = sp.Matrix(3, 1, lambda i, _: sp.Symbol(f"b{i}"))
+    ctx.ensure("rotation:Q^T((Q.a)x(Q.b))=det(Q)*(a.x.b)(proper-rotations-keep-the-dihedral-sign,mirror-images-flip-it)",
+               (Q.T * ((Q * a).cross(Q * b)) - Q.det() * a.cross(b)).expand() == sp.zeros(3, 1), kind="lemma-poly")
+    # periodic, orthorhombic: the C05 `dist_mic` contract gives, per component, out = diff - n L with integer n and |out| <= L/2.
+    # Shifting an atom by k L (k integer) changes diff by k L; ANY two outputs admitted by the contract differ by m L (m integer) and have the same square.
+    o1, L = z3.Real("o1"), z3.Real("L")
+    m = z3.Int("m")
+    o2 = o1 - z3.ToReal(m) * L
+    ctx.split_hint("lattice-shift", m <= -2)
+    ctx.split_hint("lattice-shift", m >= 2)
+    ctx.split_hint("lattice-shift", m == 0)
+    ctx.split_hint("lattice-shift", m == 1)
+    ctx.ensure("lattice-shift(orthorhombic):two-wrapped-representatives-of-one-lattice-class-have-the-same-square",
+               z3.Implies(z3.And(L > 0, o1 <= L / 2, -o1 <= L / 2, o2 <= L / 2, -o2 <= L / 2), o1 * o1 == o2 * o2))
+    ctx.ensure("lemmas-stated", True)
+    ctx.cover("stated")
+
+
+contract("C09", "mdtraj/geometry/src/kernels/distancekernels.h", "lemmas:invariance-over-the-kernel-contracts", lang="c", replay="invariance", covers=["stated"])(invariance_lemmas)
